@@ -260,7 +260,8 @@ SPEC = {
               "people", "l.php", "a.123", "pcb.456", "123456789", "1234567", "12345678abc", "zuck", "Some.Page-1", "x.php", ""],
         reduced=["videos", "photos", "posts", "permalink", "groups", "people", "123456789", "1234567", "zuck", "a.123"],
         queries=["", "v=123", "fbid=10&set=g.1", "fbid=10&set=a.2", "fbid=10&set=a.2&set=g.1", "fbid=10", "story_fbid=5&id=6", "id=6", "story_fbid=5",
-                 "u=http%3A%2F%2Fx.com", "set=a.2", "v=", "id=", "fbid=&set=", "x=1&amp;id=7"],
+                 "u=http%3A%2F%2Fx.com", "set=a.2", "v=", "id=", "fbid=&set=", "x=1&amp;id=7",
+                 "v", "fbid&set=a.2", "fbid=10&set", "story_fbid&id=6", "story_fbid=5&id", "id", "u", "fbid=10&set=g.1&set=a.2"],
         fragments=[""],
         options=[{"allow_relative_urls": False}, {"allow_relative_urls": True}],
     ),
@@ -270,7 +271,8 @@ SPEC = {
               "feed", "playlist", "results", "redirect", "about", "Name", ""],
         reduced=["watch", "embed", "shorts", "channel", "user", "c", VID, "Name", "@handle"],
         queries=["", "v=" + VID, "v=bad", "v=" + VID + "&list=PL1", "list=PL1", "v=" + VID + "&list=PL%26x%3D1", "list=PL%2523a&v=" + VID, "v=" + VID + "&list=PL%2526", "next=%2Fwatch%3Fv%3D" + VID, "next=%2Fwatch%3Fv%3Dx", "v=" + VID + "xyz",
-                 "q=http%3A%2F%2Fx.org", "feature=share&v=" + VID, "next%3D%252Fwatch%253Fv%253Dzz", "v=", "V=" + VID],
+                 "q=http%3A%2F%2Fx.org", "feature=share&v=" + VID, "next%3D%252Fwatch%253Fv%253Dzz", "v=", "V=" + VID,
+                 "v", "feature=share&v", "v&list=PL1", "v&v=" + VID, "list", "list&v=" + VID, "&&v=" + VID + "&"],
         fragments=["", "/watch?v=" + VID, "%2Fwatch%3Fv%3D" + VID, "!/x", "/watch?v=bad"],
         options=[{"fix_common_mistakes": True}, {"fix_common_mistakes": False}],
     ),
@@ -304,7 +306,7 @@ SPEC = {
                "https://amp.example.com", "https://x.cdn.ampproject.org"],
         full=["document", "presentation", "spreadsheets", "file", "d", "e", "pub", "edit", "1AbC_id", "u", "0", "url", "amp", "a.amp.html", ""],
         reduced=["document", "spreadsheets", "d", "e", "pub", "1AbC_id", "edit"],
-        queries=["", "url=http%3A%2F%2Fx.org", "amp_js_v=1", "usp=sharing", "output=csv"],
+        queries=["", "url=http%3A%2F%2Fx.org", "amp_js_v=1", "usp=sharing", "output=csv", "url", "q&url=http%3A%2F%2Fx.org", "id"],
         fragments=["", "gid=0"],
         options=[{}],
     ),
